@@ -38,6 +38,30 @@ TIMEOUT_MS = 120_000  # wall-clock safety net only
 TRACE = bool(__import__("os").environ.get("SYMX_TRACE"))
 
 
+WATCHDOG = False  # set in worker processes: a solver call that overstays its own limits by 90 s ends the process
+_QUERY = [0.0, 0.0]  # (start of the running solver call or 0, its wall-clock allowance)
+_DOG = []
+
+
+def _arm_watchdog(t, allowance):
+    _QUERY[1] = allowance
+    _QUERY[0] = t
+    if not _DOG:
+        import os
+        import threading
+
+        def watch():
+            while True:
+                time.sleep(5)
+                t0 = _QUERY[0]
+                if t0 and time.time() - t0 > _QUERY[1] + 90:
+                    os._exit(77)
+
+        th = threading.Thread(target=watch, daemon=True)
+        th.start()
+        _DOG.append(th)
+
+
 def check(fs, rlimit=None, timeout=None):
     """fresh solver per query: lets z3 pick nlsat for QF_NRA"""
     s = z3.Solver()
@@ -46,7 +70,12 @@ def check(fs, rlimit=None, timeout=None):
     for f in fs:
         s.add(f)
     t = time.time()
-    r = s.check()
+    if WATCHDOG:
+        _arm_watchdog(t, int(timeout or TIMEOUT_MS) / 1000.0)
+    try:
+        r = s.check()
+    finally:
+        _QUERY[0] = 0.0
     STATS["queries"] += 1
     STATS["solver_s"] += time.time() - t
     r = str(r)
@@ -742,6 +771,42 @@ def _to_fraction(o):
     if isinstance(o, (bool, _np.bool_, int, _np.integer)):
         return fractions.Fraction(int(o))
     return fractions.Fraction(float(o))
+
+
+def reduce_sqrts(x):
+    """rewrite r^(2j+i) -> radicand^j * r^i (i in {0,1}) for every square-root variable r of the current path whose
+    radicand is a polynomial: an exact simplification (r*r == radicand is one of the path's side conditions) that
+    turns identities modulo those equations into syntactic ones.  Accepts a Sym, a number or an array."""
+    if isinstance(x, _np.ndarray):
+        out = _np.empty(x.shape, dtype=object)
+        for i in _np.ndindex(*x.shape):
+            out[i] = reduce_sqrts(x[i])
+        return out
+    if not isinstance(x, Sym) or CTX is None:
+        return x
+    table = {}
+    for (arg, r) in CTX.sqrts:
+        if arg.d is None and len(r.n.t) == 1:
+            (mono, cf), = r.n.t.items()
+            if cf == 1 and len(mono) == 1 and mono[0][1] == 1:
+                table[mono[0][0]] = arg.n
+
+    def red(p):
+        if not table or not any(v in table and e >= 2 for m in p.t for (v, e) in m):
+            return p
+        acc = Poly()
+        for m, cf in p.t.items():
+            term = Poly({tuple((v, e) for (v, e) in m if not (v in table and e >= 2)): cf})
+            for (v, e) in m:
+                if v in table and e >= 2:
+                    for _ in range(e // 2):
+                        term = term * table[v]
+                    if e % 2:
+                        term = term * Poly({((v, 1),): Fr(1)})
+            acc = acc + term
+        return red(acc)
+
+    return Sym(red(x.n), None if x.d is None else red(x.d))
 
 
 INT_LO, INT_HI = -64, 64
